@@ -331,10 +331,13 @@ def run_script(ctx, scratch, idx, calls, allow):
     env.pop("MONKEYTYPE_TRACE_MODULES", None)
     if allow is not None:
         env["MONKEYTYPE_TRACE_MODULES"] = ",".join(allow)
-    p = subprocess.run([sys.executable, "-m", "monkeytype", "run", script], cwd=root, env=env, capture_output=True, text=True)
+    as_module = idx % 2 == 1  # `monkeytype run -m <module>` for every other script
+    argv = [sys.executable, "-m", "monkeytype", "run"] + (["-m", "main_script"] if as_module else [script])
+    p = subprocess.run(argv, cwd=root, env=env, capture_output=True, text=True)
     spec = ["RUN", calls, allow]
     if p.returncode:
-        raise core.HarnessError(f"monkeytype run failed: {p.stderr[-1500:]}")
+        # the scripts are fixed text that runs on the pinned tree: a failing `run` is the command's fault
+        return ctx.fail("C17/run-command-fails", spec, f"{' '.join(argv[2:])}: rc={p.returncode} {p.stderr[-800:]}", raise_=False)
     con = sqlite3.connect(db)
     rows = set(con.execute("select module, qualname from monkeytype_call_traces").fetchall())
     con.close()
